@@ -81,6 +81,9 @@ def gen_case(rng, tier, g):
     for _ in range(max(rec.nsrc, 1)):
         if profile == 'csvsafe':
             t = gen_table(rng, maxrows, profile='text', ragged=False)
+        elif profile == 'containers':
+            t = gen_table(rng, maxrows, profile='containers', ragged=False,
+                          nfields=rng.randint(4, 5))
         elif profile == 'textish':
             t = gen_table(rng, maxrows, profile='default', ragged=False,
                           nfields=5)
